@@ -112,6 +112,59 @@ def full_job(job):
     return info, events
 
 
+def sweep_job(job):
+    """Wage sweep of one household type with the unit's wealth placed inside the band in which the
+    Kinderzuschlag is reduced but still paid (found on the real code by a first pass)."""
+    date, kind, rent, seed, tid = job
+    rnd = random.Random(seed)
+    wages = [20.0 * k for k in range(0, 160)]
+    P = []
+    for k, w in enumerate(wages):
+        prof = {
+            "bruttolohn_m": (lambda ww: (lambda i, r, d, rr: ww if i == 1 else 0.0))(w), "bruttokaltmiete_m_hh": rent, "heizkosten_m_hh": 60.0, "wohnfläche_hh": 70.0,
+            "vermögen_bedürft": 0.0, "eink_selbst_m": 0.0, "kapitaleink_brutto_m": 0.0, "eink_vermietung_m": 0.0, "sonstig_eink_m": 0.0, "rentner": False,
+            "arbeitsstunden_w": lambda i, r, d, rr: 38.0 if i == 1 else 0.0, "priv_rente_m": 0.0, "kind_unterh_erhalt_m": 0.0, "kind_unterh_anspr_m": 0.0,
+            "bewohnt_eigentum_hh": False, "mietstufe": 3, "wohnort_ost": False, "elterngeld_claimed": False, "in_priv_krankenv": False,
+        }
+        rr = random.Random(seed)      # the same household in every copy; only the wage differs
+        Q = popgen.dress(popgen.CANON[kind], date, rr, pid_base=10 * k, hh_base=k, profile=prof)
+        P += Q
+    df = gs.build_population(P, date)
+    cols = ["arbeitsl_geld_2_m_bg", "wohngeld_m_wthh", "kinderzuschl_m_bg", "grunds_im_alter_m_eg", "bg_id", "wthh_id", "arbeitsl_geld_2_regelbedarf_m_bg", "arbeitsl_geld_2_eink_m_bg", "_kinderzuschl_nach_vermög_check_m_bg", "wohngeld_anspruchshöhe_m_bg"]
+    info = {"tid": tid, "date": date, "persons": P[: len(popgen.CANON[kind])], "wage": "sweep 0..3180 step 20", "pens": False, "kind": kind, "rent": rent}
+    try:
+        first = gs.compute(df, date, targets=["_kinderzuschl_vor_vermög_check_m_bg", "kinderzuschl_vermög_freib_bg", "bg_id"])
+        freib = first["kinderzuschl_vermög_freib_bg"].to_numpy()
+        kvor = first["_kinderzuschl_vor_vermög_check_m_bg"].to_numpy()
+        adult = (df["alter"] >= 18).to_numpy() & (df["p_id"] % 10 == 0).to_numpy()
+        df2 = df.copy()
+        frac = rnd.choice([0.3, 0.5, 0.8])
+        df2.loc[adult, "vermögen_bedürft"] = np.where(kvor[adult] > 0, freib[adult] + frac * kvor[adult], 0.0)
+        res = gs.compute(df2, date, targets=cols)
+    except Exception as e:  # noqa: BLE001
+        info["error"] = f"{type(e).__name__}: {str(e)[:160]}"
+        return info, []
+    events = []
+    for hh, idx in df2.groupby("hh_id").indices.items():
+        persons = []
+        for i in idx:
+            persons.append({
+                "bg": int(res["bg_id"].iloc[i]), "wthh": int(res["wthh_id"].iloc[i]),
+                "alg2": bool(res["arbeitsl_geld_2_m_bg"].iloc[i] > 0), "wg": bool(res["wohngeld_m_wthh"].iloc[i] > 0),
+                "kiz": bool(res["kinderzuschl_m_bg"].iloc[i] > 0), "grunds": bool(res["grunds_im_alter_m_eg"].iloc[i] > 0),
+                "need": dec(float(res["arbeitsl_geld_2_regelbedarf_m_bg"].iloc[i])), "eink": dec(float(res["arbeitsl_geld_2_eink_m_bg"].iloc[i])),
+                "kizamt": dec(float(res["_kinderzuschl_nach_vermög_check_m_bg"].iloc[i])), "wgamt": dec(float(res["wohngeld_anspruchshöhe_m_bg"].iloc[i])),
+            })
+        events.append({"k": "hh", "persons": persons, "tid": tid, "hh": int(hh)})
+    info["paid"] = {k: int((res[k] > 0).sum()) for k in cols[:4]}
+    info["reduced_kiz_households"] = int(((res["kinderzuschl_m_bg"] > 0) & (df2["vermögen_bedürft"] > 0)).sum())
+    return info, events
+
+
+def _full_dispatch(job):
+    return sweep_job(job[1:]) if job[0] == "sweep" else full_job(job[1:])
+
+
 def judge(events, work, tag):
     n = max(1, min(16, len(events) // 300))
     size = (len(events) + n - 1) // n
@@ -171,7 +224,14 @@ def run(tier):
     # ---- C: full system
     dates = ["2023-01-01"] + rnd.sample([d for d in DATES if d != "2023-01-01"], 2 if quick else len(DATES) - 1)
     njobs = 48 if quick else 800
-    outs = pool_map(full_job, sorted([(dates[t % len(dates)], rnd.randrange(1 << 30), t) for t in range(njobs)]))
+    fjobs = [("full", dates[t % len(dates)], rnd.randrange(1 << 30), t) for t in range(njobs)]
+    t = njobs
+    for d in dates[: (2 if quick else len(dates))]:
+        for kind in (["single_parent_1", "family_2"] if quick else ["single_parent_1", "single_parent_2", "family_2", "family_3"]):
+            for rent in ([500.0] if quick else [350.0, 600.0, 900.0]):
+                fjobs.append(("sweep", d, kind, rent, rnd.randrange(1 << 30), t))
+                t += 1
+    outs = pool_map(_full_dispatch, fjobs)
     hh_events, owner = [], []
     paid = {}
     for info, events in outs:
@@ -180,6 +240,8 @@ def run(tier):
             continue
         for k, v in info["paid"].items():
             paid[k] = paid.get(k, 0) + v
+        if "reduced_kiz_households" in info:
+            chk.notes["persons_with_wealth_reduced_kinderzuschlag"] = chk.notes.get("persons_with_wealth_reduced_kinderzuschlag", 0) + info["reduced_kiz_households"]
         for e in events:
             hh_events.append(e)
             owner.append(info)
